@@ -1,4 +1,5 @@
 import Txtpp.Lemmas.Term
+import Txtpp.Lemmas.CoordScanInv
 /-!
 # Property C03 — every run terminates and completes each required file exactly once
 -/
@@ -47,5 +48,33 @@ theorem exactly_once (w : World) (inputs : List File) (s : St) (h : Reach w inpu
 theorem coordinator_never_panics (w : World) (inputs : List File) (s : St) (h : Reach w inputs s) (t : Task)
     (ht : t ∈ s.pool) : handle { s with pool := s.pool.erase t } (w.result t) ≠ .panic :=
   never_panics w inputs s h t ht
+
+/-! ### with directory scan tasks (`execute_directory`, the `ScanDir` branch, shared counters) -/
+
+/-- the exit test on the shared done/total counters holds exactly when neither a file task nor a
+directory scan is in flight — also when a directory is reached more than once (named twice, or
+through a symbolic-link loop; finding F4) -/
+theorem exit_iff_idle_with_scans (w : ScanWorld) (files : List File) (ds : List Dir) (x : SSt)
+    (h : SReach w files ds x) : x.isDone = true ↔ (x.st.pool = [] ∧ x.scans = []) :=
+  exit_iff_idle w files ds x h
+
+/-- every directory is scheduled for scanning at most once, whatever the scans report (duplicates,
+loops): scheduled directories and scans in flight are duplicate-free, so at most `|U|` scans ever
+start over a universe `U` of directories -/
+theorem directories_scanned_once (w : ScanWorld) (files : List File) (ds : List Dir) (x : SSt)
+    (h : SReach w files ds x) (U : List Dir) (hU : ∀ d ∈ x.dirs, d ∈ U) :
+    x.dirs.length ≤ U.length ∧ x.scans.length ≤ x.dirs.length ∧ x.dirs.Nodup ∧ x.scans.Nodup :=
+  ⟨(scans_bounded w files ds x h U hU).1, (scans_bounded w files ds x h U hU).2,
+   (sreach_inv w files ds x h).dirsND, (sreach_inv w files ds x h).scansND⟩
+
+/-- files found by scanning enter the same coordinator: the file part of every reachable state
+satisfies the full file invariant, so exactly-once, second-pass-after-dependencies etc. hold with
+scanning too -/
+theorem files_found_by_scanning_once (w : ScanWorld) (files : List File) (ds : List Dir) (x : SSt)
+    (h : SReach w files ds x) :
+    x.st.seen.Nodup ∧ x.st.pool.Nodup ∧ x.st.dm.fin.Nodup ∧
+    (∀ a, Task.pp a false ∈ x.st.pool → ∀ d ∈ w.deps a, d ∈ x.st.dm.fin) :=
+  ⟨(file_part_inv w files ds x h).seenND, (file_part_inv w files ds x h).poolND,
+   (file_part_inv w files ds x h).finND, (file_part_inv w files ds x h).secondDeps⟩
 
 end C03
